@@ -400,7 +400,7 @@ fn rand_ex(rng: &mut Rng, none_pct: u64) -> Value {
     }
 }
 fn rand_data(rng: &mut Rng) -> i64 {
-    if rng.chance(1, 25) {
+    if rng.chance(1, 60) {
         9
     } else {
         rng.range(1, 5) as i64
@@ -408,7 +408,7 @@ fn rand_data(rng: &mut Rng) -> i64 {
 }
 fn rand_script(rng: &mut Rng) -> (&'static str, i64) {
     let k = *rng.pick(&["native", "plutus_v1", "plutus_v2", "plutus_v3"]);
-    let s = if k == "native" && rng.chance(1, 20) { 9 } else { rng.range(1, 3) as i64 };
+    let s = if k == "native" && rng.chance(1, 30) { 9 } else { rng.range(1, 3) as i64 };
     (k, s)
 }
 fn rand_output(rng: &mut Rng) -> Value {
@@ -428,7 +428,28 @@ fn rand_output(rng: &mut Rng) -> Value {
     json!({"addr": rng.range(1, 2), "lovelace": 1_000_000 + rng.below(1000), "adds": adds, "datum": datum, "script": script})
 }
 
-fn rand_op(rng: &mut Rng, n_outputs: usize, none_pct: u64) -> Value {
+/// a staged input / minted policy (as labels) most of the time, so that redeemers usually have a target
+fn staged_input(rng: &mut Rng, st: &StagingTransaction) -> (i64, i64) {
+    match st.inputs.as_deref() {
+        Some(v) if !v.is_empty() && rng.chance(4, 5) => {
+            let x = rng.pick(v);
+            (find(|l| *h32(l as u8) == x.tx_hash.0), x.txo_index as i64)
+        }
+        _ => rand_input(rng),
+    }
+}
+fn staged_policy(rng: &mut Rng, st: &StagingTransaction) -> i64 {
+    let mut ps: Vec<i64> = st.mint.iter().flat_map(|m| m.keys()).map(|p| find(|l| *policy(l) == p.0)).collect();
+    ps.sort();
+    if !ps.is_empty() && rng.chance(4, 5) {
+        *rng.pick(&ps)
+    } else {
+        rng.range(1, 3) as i64
+    }
+}
+
+fn rand_op(rng: &mut Rng, st: &StagingTransaction, none_pct: u64) -> Value {
+    let n_outputs = st.outputs.as_ref().map(|o| o.len()).unwrap_or(0);
     let (h, i) = rand_input(rng);
     match rng.below(40) {
         0..=4 => json!({"ev": "input", "h": h, "i": i}),
@@ -448,7 +469,7 @@ fn rand_op(rng: &mut Rng, n_outputs: usize, none_pct: u64) -> Value {
         21 => json!({"ev": "valid_from_slot", "v": rng.below(100)}),
         22 => json!({"ev": *rng.pick(&["clear_valid_from_slot", "clear_invalid_from_slot", "clear_network_id", "clear_auxiliary_data"])}),
         23 => json!({"ev": "invalid_from_slot", "v": 100 + rng.below(100)}),
-        24 => json!({"ev": "network_id", "v": if rng.chance(1, 8) { 2 + rng.below(3) } else { rng.below(2) }}),
+        24 => json!({"ev": "network_id", "v": if rng.chance(1, 12) { 2 + rng.below(3) } else { rng.below(2) }}),
         25 => json!({"ev": "disclosed_signer", "k": rng.range(1, 3)}),
         26 => json!({"ev": "remove_disclosed_signer", "k": rng.range(1, 3)}),
         27 | 28 => {
@@ -461,9 +482,12 @@ fn rand_op(rng: &mut Rng, n_outputs: usize, none_pct: u64) -> Value {
         }
         30 | 31 => json!({"ev": "datum", "d": rand_data(rng)}),
         32 => json!({"ev": *rng.pick(&["remove_datum", "remove_datum_by_hash"]), "d": rand_data(rng)}),
-        33 | 34 => json!({"ev": "add_spend_redeemer", "h": h, "i": i, "d": rand_data(rng), "ex": rand_ex(rng, none_pct)}),
+        33 | 34 => {
+            let (h, i) = staged_input(rng, st);
+            json!({"ev": "add_spend_redeemer", "h": h, "i": i, "d": rand_data(rng), "ex": rand_ex(rng, none_pct)})
+        }
         35 => json!({"ev": "remove_spend_redeemer", "h": h, "i": i}),
-        36 => json!({"ev": "add_mint_redeemer", "p": rng.range(1, 3), "d": rand_data(rng), "ex": rand_ex(rng, none_pct)}),
+        36 => json!({"ev": "add_mint_redeemer", "p": staged_policy(rng, st), "d": rand_data(rng), "ex": rand_ex(rng, none_pct)}),
         37 => json!({"ev": "remove_mint_redeemer", "p": rng.range(1, 3)}),
         38 => json!({"ev": "add_auxiliary_data", "x": if rng.chance(1, 5) { 9 } else { rng.range(1, 3) }}),
         _ => json!({"ev": "add_language", "kind": *rng.pick(&["native", "plutus_v1", "plutus_v2", "plutus_v3"])}),
@@ -476,14 +500,13 @@ pub fn trace(args: &Args) {
     let mut rng = Rng::new(args.seed());
     let runs = args.num("runs", 10);
     let ops = args.num("ops", 60);
-    let none_pct = args.num("none-pct", 4);
+    let none_pct = args.num("none-pct", 3);
     let mut out = Ndjson::create(args.get("out"));
     for _ in 0..runs {
         let mut st = StagingTransaction::new();
         out.ev(json!({"ev": "reset"}));
         for _ in 0..ops {
-            let n_out = st.outputs.as_ref().map(|o| o.len()).unwrap_or(0);
-            let op = rand_op(&mut rng, n_out, none_pct);
+            let op = rand_op(&mut rng, &st, none_pct);
             let keep = st.clone();
             match catch(|| apply_op(st, &op)) {
                 Ok((s, res)) => {
@@ -493,8 +516,8 @@ pub fn trace(args: &Args) {
                     out.ev(e);
                 }
                 Err(p) => {
-                    // a panic while staging is outside C40; logged, state kept
-                    st = keep;
+                    // a panic while staging is outside C40; logged, the run restarts
+                    drop(keep);
                     out.ev(json!({"ev": "reset", "staging_panic": p, "op": op}));
                     st = StagingTransaction::new();
                 }
